@@ -199,7 +199,29 @@ func randHistoryOp(r *rng, w *world) string {
 		}
 		return out
 	}
+	// destinations of the same SIZE but another shape are reshaped by the option handling
+	sameSize := func(i int) []int {
+		var out []int
+		if scalarWide(w.ts[i]) {
+			return nil
+		}
+		for j, x := range w.ts {
+			if w.dead[j] || scalarWide(x) || j == i {
+				continue
+			}
+			if x.Shape().TotalSize() == w.ts[i].Shape().TotalSize() && x.Dtype() == w.ts[i].Dtype() && !x.IsScalar() && !w.ts[i].IsScalar() {
+				out = append(out, j)
+			}
+		}
+		return out
+	}
+	_ = sameSize
 	mode := func(cands []int) string {
+		if r.intn(4) == 0 {
+			if ss := sameSize(t); len(ss) > 0 {
+				return fmt.Sprintf("%s.%d", []string{"reuse", "incr"}[r.intn(2)], ss[r.intn(len(ss))])
+			}
+		}
 		switch r.intn(6) {
 		case 0:
 			return "unsafe"
@@ -451,6 +473,13 @@ func genC19(tier string, r *rng, emit func(string)) {
 		emit(fmt.Sprintf("prog f64 %s;%s:incr.3;new:rm:2,2:9;clone:0", pre, op))
 	}
 	recycleMotifs(emit)
+	// a destination of another shape (same size) is reshaped; the operands' own shape and strides
+	// lists stay theirs, also after later allocations
+	for _, op := range []string{"bin:add:0:1:reuse.2", "bin:mul:0:1:incr.2", "bins:add:0:3:left:reuse.2", "un:neg:0:reuse.2", "cmp:lt:0:1:same:reuse.2"} {
+		for _, dsh := range []string{"6", "3,2", "1,6", "2,3"} {
+			emit(fmt.Sprintf("prog f64 new:rm:2,3:1;new:rm:2,3:11;new:rm:%s:50;%s;new:rm:4,5:0;new:rm:2,3:70;clone:0;slice:0:0.1.1", dsh, op))
+		}
+	}
 	// a rank-0 tensor used as the scalar operand of a safe operation is an operand like any other:
 	// it must come out unchanged (and stay usable) whatever the operation and the side
 	for _, op := range []string{"add", "sub", "mul", "div", "mod", "pow"} {
